@@ -99,7 +99,9 @@ import (
 	"os"
 	"path/filepath"
 	"sort"
+	"strconv"
 	"testing"
+	"time"
 )
 
 var verifRegistry = map[string]func(){
@@ -120,6 +122,19 @@ func TestVerifReplay(t *testing.T) {
 			continue
 		}
 		verifCur, verifFailed, verifObserved, verifReached, verifKnownOn, verifKnownBad = r, nil, nil, nil, "", nil
+		if n, _ := strconv.Atoi(os.Getenv("VERIF_STRESS")); n > 0 {
+			// schedule-dependent counterexample: run the harness instance again and again and
+			// let the Go scheduler find the interleaving; a panic in a goroutine or a deadlock
+			// kills this process (that is the confirmation), a failed assertion is recorded
+			deadline := time.Now().Add(45 * time.Second)
+			k := 0
+			for ; k < n && time.Now().Before(deadline) && len(verifFailed) == 0; k++ {
+				h()
+			}
+			b, _ := json.Marshal(map[string]interface{}{"failed": verifFailed, "stress_runs": k})
+			os.WriteFile(f+".stress", b, 0644)
+			continue
+		}
 		pmsg := func() (msg string) {
 			defer func() {
 				if p := recover(); p != nil {
@@ -222,6 +237,32 @@ def native_replay(pid, overlay, names, replay_dir, gen, timeout_s=300):
                 break
         else:
             res.setdefault("_race", {})[f] = {"verdict": verdict, "report": ""}
+    # other schedule-dependent counterexamples (deadlock, crash, wrong result under one interleaving):
+    # stress the same harness instance natively and record whether the Go scheduler reproduces it
+    sched_dep = [f for f in files if f not in racy and json.load(open(f)).get("schedule_dependent")][:2]
+    for f in sched_dep:
+        one = os.path.join(gen, "stress-one")
+        shutil.rmtree(one, ignore_errors=True)
+        os.makedirs(one)
+        shutil.copy(f, one)
+        rr = sh(["timeout", "120", "go", "test", "-vet=off", "-count=1", "-run", "^TestVerifReplay$", "-timeout", "60s", "-overlay", ovf] + pkgs,
+                cwd=REPO, env=dict(GOENV, VERIF_REPLAY_DIR=one, VERIF_STRESS="200000"), stdout=subprocess.PIPE, stderr=subprocess.STDOUT, text=True)
+        sf = os.path.join(one, os.path.basename(f) + ".stress")
+        out = rr.stdout
+        if "all goroutines are asleep" in out or "test timed out" in out:
+            verdict = "reproduced natively by stress: the process deadlocked / hung"
+        elif re.search(r"^panic: |^fatal error: ", out, re.M):
+            m = re.search(r"^(panic: .*|fatal error: .*)$", out, re.M)
+            verdict = "reproduced natively by stress: " + m.group(1)[:160]
+        elif os.path.exists(sf):
+            st = json.load(open(sf))
+            if st.get("failed"):
+                verdict = "reproduced natively by stress after %d runs: %s" % (st["stress_runs"], ", ".join(st["failed"][:2]))
+            else:
+                verdict = "not reproduced natively in %d stress runs" % st["stress_runs"]
+        else:
+            verdict = "native stress run inconclusive (rc=%d)" % rr.returncode
+        res.setdefault("_stress", {})[f] = {"verdict": verdict}
     return res
 
 
@@ -294,7 +335,8 @@ def run_check(pid, tier):
             f = os.path.join(replay_dir, "%s-v%d.json" % (jo["id"], k))
             json.dump({"property": pid, "harness": jo["func"], "package": jo["package"], "params": jo["params"],
                        "values": v["Model"] or {}, "fails": v["Label"], "known": v.get("Known", ""), "known_ids": known_ids,
-                       "engine_observations": v["Observe"] or [], "decisions": v.get("Trace")}, open(f, "w"), indent=1)
+                       "engine_observations": v["Observe"] or [], "decisions": v.get("Trace"),
+                       "schedule_dependent": j.get("sched") == "sym"}, open(f, "w"), indent=1)
             viol_files.append(f)
     native = native_replay(pid, overlay, names, replay_dir, gen)
     validated = 0
@@ -322,9 +364,9 @@ def run_check(pid, tier):
             # found under the symbolic scheduler: depends on the interleaving, which the native Go
             # scheduler will not reproduce on demand; reported with the schedule the engine found
             ok = True
-            rv = (native.get("_race") or {}).get(f)
+            rv = (native.get("_race") or {}).get(f) or (native.get("_stress") or {}).get(f)
             if rv:
-                r_["go_race_detector"] = rv
+                r_["native_confirmation"] = rv
                 json.dump(r_, open(f, "w"), indent=1)
                 label = r_["fails"] + " [" + rv["verdict"] + "]"
         if n is not None and not ok:
